@@ -34,8 +34,15 @@ pub const ALL_PLANNERS: [PlannerTag; 4] = [
 
 #[derive(Clone, Debug, PartialEq, Serialize, Deserialize)]
 pub struct Problem {
+    /// start_states[0]
     pub start: Vec<f64>,
     pub goal: GoalCfg,
+    /// further entries of start_states (the planners only ever use the first one)
+    #[serde(default)]
+    pub extra_starts: Vec<Vec<f64>>,
+    /// this problem has an empty start list
+    #[serde(default)]
+    pub no_start: bool,
 }
 
 #[derive(Clone, Debug, PartialEq, Serialize, Deserialize)]
@@ -74,6 +81,27 @@ pub struct PlanCase {
     pub goal_fail_at: Option<usize>,
     pub empty_starts: bool,
     pub query_cap: usize,
+    /// if set, `setup(problem 1, ..)` installs a checker for this world instead of `world`
+    /// (a re-setup with a different obstacle set)
+    #[serde(default)]
+    pub world2: Option<World>,
+}
+
+impl PlanCase {
+    /// index of the world whose checker `setup(problem i)` installs
+    pub fn world_index_for(&self, problem: usize) -> usize {
+        if problem == 1 && self.world2.is_some() {
+            1
+        } else {
+            0
+        }
+    }
+    pub fn world_by_index(&self, wi: usize) -> &World {
+        match (&self.world2, wi) {
+            (Some(w), 1) => w,
+            _ => &self.world,
+        }
+    }
 }
 
 #[derive(Clone, Debug, PartialEq)]
@@ -305,7 +333,8 @@ pub struct Built<K: Kind> {
     pub space: K::SP,
     pub rec: RecRef,
     pub pds: Vec<Arc<PD<K>>>,
-    pub checker: Arc<WChecker<K>>,
+    /// one checker per world (index 0 = `world`, 1 = `world2`)
+    pub checkers: Vec<Arc<WChecker<K>>>,
 }
 
 pub fn build_case<K: Kind>(case: &PlanCase) -> Result<Built<K>, String> {
@@ -328,10 +357,16 @@ pub fn build_case<K: Kind>(case: &PlanCase) -> Result<Built<K>, String> {
             rec: rec.clone(),
         };
         let goal = WGoal::<K>::new(&p.goal, &case.space, space.clone(), rec.clone());
-        let starts = if case.empty_starts {
+        let starts = if case.empty_starts || p.no_start {
             vec![]
         } else {
-            vec![K::dec(&case.space, &p.start)]
+            let mut v = vec![K::dec(&case.space, &p.start)];
+            for e in &p.extra_starts {
+                if e.len() == case.space.width() {
+                    v.push(K::dec(&case.space, e));
+                }
+            }
+            v
         };
         #[allow(clippy::arc_with_non_send_sync)]
         pds.push(Arc::new(ProblemDefinition {
@@ -340,25 +375,27 @@ pub fn build_case<K: Kind>(case: &PlanCase) -> Result<Built<K>, String> {
             goal: Arc::new(goal),
         }));
     }
-    #[allow(clippy::arc_with_non_send_sync)]
-    let checker = Arc::new(WChecker::<K> {
-        world: case.world.clone(),
-        cfg: case.space.clone(),
-        rec: rec.clone(),
-        space: space.clone(),
-        sballs: case
-            .world
-            .sballs
-            .iter()
-            .map(|(c, r)| (K::dec(&case.space, c), *r))
-            .collect(),
-        _k: PhantomData,
-    });
+    let mut checkers = Vec::new();
+    for w in std::iter::once(&case.world).chain(case.world2.iter()) {
+        #[allow(clippy::arc_with_non_send_sync)]
+        checkers.push(Arc::new(WChecker::<K> {
+            world: w.clone(),
+            cfg: case.space.clone(),
+            rec: rec.clone(),
+            space: space.clone(),
+            sballs: w
+                .sballs
+                .iter()
+                .map(|(c, r)| (K::dec(&case.space, c), *r))
+                .collect(),
+            _k: PhantomData,
+        }));
+    }
     Ok(Built {
         space,
         rec,
         pds,
-        checker,
+        checkers,
     })
 }
 
@@ -388,7 +425,11 @@ pub fn run_case<K: Kind>(case: &PlanCase) -> Result<Trace, String> {
         } else {
             let out = guarded(|| match op {
                 Op::Setup(i) => {
-                    planner.setup(b.pds[*i % b.pds.len()].clone(), b.checker.clone());
+                    let pi = *i % b.pds.len();
+                    planner.setup(
+                        b.pds[pi].clone(),
+                        b.checkers[case.world_index_for(pi)].clone(),
+                    );
                     Res::Unit
                 }
                 Op::SetProblem(i) => {
